@@ -75,12 +75,12 @@ H("C02", "runtime::verif_h::c02_stack_off_exits", RT, uf=True, stubs=[EXIT], cov
   what="opcode 0xD with the extension off: exit(1) before anything executes", bounds="complete")
 H("C02", "runtime::verif_h::c02_stack_off_exit_reached", RT, uf=True, stubs=[EXIT], covers=1, expect_cover_partial=True,
   functions=["RunState::stack"], what="reachability twin: exit(1) is reached", bounds="complete")
-H("C02", "runtime::verif_h::c02_dispatch_effect", RT, uf=True, covers=2, timeout=1500,
+H("C02", "runtime::verif_h::c02_dispatch_effect", RT, uf=True, covers=2, timeout=1500, stubs=["RunState::trap / RunState::stack -> path cut (opcodes excluded by assumption)"],
   functions=["RunState::execute", "RunState::OP_TABLE"] ,
   what="execute() through the real table: every word with opcode not in {8,D,F} x arbitrary state vs reference step",
   bounds="none on values; one instruction")
-H("C02", "runtime::verif_h::c02_dispatch_slots", RT, covers=1, functions=["RunState::OP_TABLE"],
-  what="table slots 0x8/0xD/0xF are rti/stack/trap", bounds="complete")
+H("C02", "runtime::verif_h::c02_dispatch_slots", RT, uf=True, covers=2, functions=["RunState::execute", "RunState::OP_TABLE"],
+  stubs=["RunState::trap / RunState::stack -> tag recorders"], what="opcodes 0xD / 0xF are dispatched to the stack / trap handler with the word itself", bounds="complete")
 
 # ------------------------------------------------------------------ C03
 prop(
